@@ -402,8 +402,12 @@ def awaits(body):
 def payload_source(body, op_or_local, variants=("Some", "Ok", "Continue", "Ready")):
     """If the value is `X as V.0` for V in variants, returns root(X) (e.g. the call that produced the Option)"""
     r = root(body, op_or_local)
+    p = None
     if r[0] == "rv" and r[1]["k"] == "use" and r[1]["op"].get("k") in ("copy", "move"):
         p = r[1]["op"]["pl"]
+    elif r[0] == "rv" and r[1]["k"] == "ref":
+        p = r[1]["pl"]            # `&(x as Ok).0` — match-guard bindings read the payload through a reference
+    if p is not None:
         names = [e.get("vn") for e in p["p"] if isinstance(e, dict) and "v" in e]
         if names and all(n in variants for n in names):
             return root(body, p["l"])
